@@ -27,10 +27,10 @@ Less(x, y) == IF Builder = "new" THEN LessNew(x, y) ELSE LessOld(x, y)
 \* the family is built span by span (ids = positions), only properly nested families continue: every family of at most N spans is reached
 Init == fam = <<>> /\ remaining = {} /\ st = MachInit /\ last = [id |-> 0, kind |-> "none", top |-> 0] /\ phase = "build"
 AddSpan == /\ phase = "build" /\ Len(fam) < N
-           /\ \E sp \in Spans :
-                 LET f2 == Append(fam, [id |-> Len(fam) + 1, ts |-> sp.ts, dur |-> sp.dur]) IN
-                 /\ Laminar(Range(f2))
-                 /\ fam' = f2
+           /\ \E t \in 0..T, d \in 0..T :
+                 /\ t + d <= T
+                 /\ Laminar(Range(fam) \cup {[id |-> Len(fam) + 1, ts |-> t, dur |-> d]}) = TRUE     \* "= TRUE": evaluate as a value, do not split the action on the disjunctions inside
+                 /\ fam' = Append(fam, [id |-> Len(fam) + 1, ts |-> t, dur |-> d])
            /\ UNCHANGED <<remaining, st, last, phase>>
 Start == /\ phase = "build" /\ Len(fam) >= 1
          /\ (ExcludeTouch => ~ZeroAtTouch(Range(fam)))
